@@ -126,6 +126,7 @@ func Initialize(initMetadata bool, iconfig Config) error {
 	}
 	// Set the package variable.  We are good to go...
 	manager = m
+	m.verifManagerReady(initMetadata)
 
 	// Add ephemeral data instances if a store wants it.
 	stores, err := storage.AllStores()
@@ -251,6 +252,7 @@ func ReloadMetadata() error {
 	// Swap the manager out.  This is dangerous and is why no requests should be ongoing
 	// at time of this function.
 	manager = m
+	m.verifManagerReady(false)
 
 	return nil
 }
@@ -848,6 +850,7 @@ func (m *repoManager) newInstanceID() (dvid.InstanceID, error) {
 			invalidID = false
 		}
 	}
+	dvid.VerifEvent("newiid", "iid", curid, "gen", m.instanceIDGen)
 	m.idMutex.Unlock()
 	return curid, err
 }
@@ -856,6 +859,7 @@ func (m *repoManager) newRepoID() (dvid.RepoID, error) {
 	m.idMutex.Lock()
 	curid := m.repoID
 	m.repoID++
+	dvid.VerifEvent("newrepoid", "repo", curid)
 	m.idMutex.Unlock()
 	return curid, m.putNewIDs()
 }
@@ -874,6 +878,7 @@ func (m *repoManager) newVersionID(uuid dvid.UUID, save bool) (dvid.VersionID, e
 	m.idMutex.Lock()
 	curid := m.versionID
 	m.versionID++
+	dvid.VerifEvent("newversionid", "uuid", uuid, "version", curid, "save", save)
 	if save {
 		m.versionToUUID[curid] = uuid
 		m.uuidToVersion[uuid] = curid
@@ -898,6 +903,7 @@ func (m *repoManager) newUUID(assign *dvid.UUID) (dvid.UUID, dvid.VersionID, err
 	}
 	m.idMutex.Lock()
 	if _, found := m.uuidToVersion[uuid]; found {
+		dvid.VerifEvent("refuse", "op", "newuuid", "uuid", uuid, "reason", "exists")
 		m.idMutex.Unlock()
 		return dvid.NilUUID, 0, ErrExistingUUID
 	}
@@ -905,6 +911,7 @@ func (m *repoManager) newUUID(assign *dvid.UUID) (dvid.UUID, dvid.VersionID, err
 	m.versionToUUID[curid] = uuid
 	m.uuidToVersion[uuid] = curid
 	m.versionID++
+	dvid.VerifEvent("newuuid", "uuid", uuid, "version", curid, "assigned", assign != nil)
 	m.idMutex.Unlock()
 
 	if err := m.putCaches(); err != nil {
@@ -1002,6 +1009,7 @@ func (m *repoManager) addRepo(r *repoT) error {
 		m.versionToUUID[v] = node.uuid
 		m.uuidToVersion[node.uuid] = v
 	}
+	dvid.VerifEvent("addrepo", "uuid", r.uuid, "repo", r.id, "nodes", len(r.dag.nodes))
 	m.idMutex.Unlock()
 
 	// Persist the changes
@@ -1062,6 +1070,7 @@ func (m *repoManager) deleteRepo(uuid dvid.UUID, passcode string) error {
 		delete(m.uuidToVersion, u)
 		delete(m.versionToUUID, v)
 	}
+	dvid.VerifEvent("deleterepo", "uuid", uuid, "repo", r.id)
 	m.idMutex.Unlock()
 	// Persist the version <-> UUID maps without the deleted repo, or its UUIDs would be
 	// known again after a restart.
@@ -1142,6 +1151,7 @@ func (m *repoManager) newRepo(alias, description string, assign *dvid.UUID, pass
 	m.repos[uuid] = r
 	m.versionToUUID[v] = uuid
 	m.uuidToVersion[uuid] = v
+	dvid.VerifEvent("newrepo", "uuid", uuid, "version", v, "repo", id)
 	m.repoMutex.Unlock()
 
 	m.branchMutex.Lock()
@@ -1680,6 +1690,7 @@ func (m *repoManager) commit(uuid dvid.UUID, note string, log []string) error {
 	if len(note) != 0 {
 		node.note = note
 	}
+	dvid.VerifEvent("commit", "uuid", uuid, "version", v)
 	node.Unlock()
 
 	if len(log) != 0 {
@@ -1758,6 +1769,7 @@ func (m *repoManager) hideBranch(uuid dvid.UUID, branch string) error {
 	}
 	// The hidden branch no longer has a head.
 	m.resetBranchHeads(r)
+	dvid.VerifEvent("hidebranch", "uuid", uuid, "branch", branch, "deleted", len(del_set))
 	r.Unlock()
 	m.repoMutex.Unlock()
 	if err := r.save(); err != nil {
@@ -1844,6 +1856,7 @@ func (m *repoManager) makeMaster(newMasterUUID dvid.UUID, oldMasterBranchName st
 		}
 		newMasterNode = childNode
 	}
+	dvid.VerifEvent("makemaster", "uuid", newMasterUUID, "oldmaster", oldMasterBranchName, "branch", oldBranchName)
 
 	// The renames change which version is the head of the branches involved.
 	m.resetBranchHeads(r)
@@ -1904,6 +1917,9 @@ func (m *repoManager) newVersion(parent dvid.UUID, note string, branchname strin
 	node.RLock()
 	parentLocked, parentBranch := node.locked, node.branch
 	sisters := append([]dvid.VersionID(nil), node.children...)
+	if !parentLocked {
+		dvid.VerifEvent("refuse", "op", "newversion", "parent", parent, "branch", branchname, "reason", "unlocked")
+	}
 	node.RUnlock()
 	if !parentLocked {
 		return dvid.NilUUID, ErrBranchUnlockedNode
@@ -1925,6 +1941,7 @@ func (m *repoManager) newVersion(parent dvid.UUID, note string, branchname strin
 				return dvid.NilUUID, fmt.Errorf("cannot find sibling nodes")
 			}
 			if sisternode.branch == branchname {
+				dvid.VerifEvent("refuse", "op", "newversion", "parent", parent, "branch", branchname, "reason", "sister")
 				return dvid.NilUUID, ErrBranchUnique
 			}
 		}
@@ -1932,6 +1949,7 @@ func (m *repoManager) newVersion(parent dvid.UUID, note string, branchname strin
 		r.RLock()
 		for _, othernode := range r.dag.nodes {
 			if othernode.branch == branchname {
+				dvid.VerifEvent("refuse", "op", "newversion", "parent", parent, "branch", branchname, "reason", "branchused")
 				r.RUnlock()
 				return dvid.NilUUID, ErrBranchUnique
 			}
@@ -1970,6 +1988,7 @@ func (m *repoManager) newVersion(parent dvid.UUID, note string, branchname strin
 	r.Lock()
 	r.dag.Lock()
 	r.dag.nodes[childV] = child
+	dvid.VerifEvent("newversion", "parent", parent, "child", childUUID, "version", childV, "branch", branchname)
 	r.dag.Unlock()
 	r.updated = time.Now()
 	r.Unlock()
@@ -2023,6 +2042,9 @@ func (m *repoManager) merge(parents []dvid.UUID, note string, mt MergeType) (dvi
 		}
 		node.RLock()
 		locked := node.locked
+		if !locked {
+			dvid.VerifEvent("refuse", "op", "merge", "parents", parents, "parent", parent, "reason", "unlocked")
+		}
 		node.RUnlock()
 		if !locked {
 			return dvid.NilUUID, ErrBranchUnlockedNode
@@ -2081,6 +2103,7 @@ func (m *repoManager) merge(parents []dvid.UUID, note string, mt MergeType) (dvi
 		child.parents = append(child.parents, v)
 		node.children = append(node.children, childV)
 		node.updated = time.Now()
+		dvid.VerifEvent("mergelink", "child", childUUID, "version", childV, "parents", parents, "i", len(child.parents))
 		node.Unlock()
 	}
 
@@ -2283,6 +2306,7 @@ func (m *repoManager) newData(uuid dvid.UUID, t TypeService, name dvid.InstanceN
 
 	r.Lock()
 	r.data[name] = dataservice
+	dvid.VerifEvent("newdata", "name", name, "iid", id, "root", r.uuid, "uuid", uuid)
 	tm := time.Now()
 	r.updated = tm
 	msg := fmt.Sprintf("New data instance %q of type %q with config %v", name, dataservice.TypeName(), c)
@@ -2451,6 +2475,7 @@ func (m *repoManager) renameDataByName(uuid dvid.UUID, oldname, newname dvid.Ins
 	r.data[newname] = r.data[oldname]
 	r.data[newname].SetName(newname)
 	delete(r.data, oldname)
+	dvid.VerifEvent("renamedata", "old", oldname, "new", newname, "iid", r.data[newname].InstanceID(), "root", r.uuid)
 	r.Unlock()
 
 	return r.save()
@@ -2606,6 +2631,7 @@ func (r *repoT) deleteData(data DataService) {
 	message := fmt.Sprintf("%s  %s", tm.Format(time.RFC3339), msg)
 	r.log = append(r.log, message)
 	delete(r.data, data.DataName())
+	dvid.VerifEvent("deletedata", "name", data.DataName(), "iid", data.InstanceID(), "root", r.uuid)
 	r.Unlock()
 	r.save()
 }
@@ -2930,6 +2956,7 @@ func (r *repoT) initMutationID(store storage.KeyValueDB, mutationIDStart uint64,
 		if err := store.Put(ctx, tk, mutdata); err != nil {
 			return err
 		}
+		dvid.VerifEvent("mutinit", "root", r.uuid, "cur", r.mutCurID, "saved", r.mutSavedID)
 	}
 	return nil
 }
@@ -2963,6 +2990,7 @@ func (r *repoT) newMutationID() (mutID uint64) {
 		if err := manager.store.Put(ctx, tk, mutdata); err != nil {
 			dvid.Criticalf("Unable to persist new mutation ID for repo %s: %v\n", r.uuid, err)
 		}
+		dvid.VerifEvent("mutblock", "root", r.uuid, "cur", r.mutCurID, "saved", r.mutSavedID)
 	}
 	r.mutMu.Unlock()
 	return
